@@ -16,8 +16,61 @@ from fim.graph import networkx_property_graph_disjoint as nxpgd
 IDENT = ("GraphID", "NodeID", "Class")
 
 
+# ---------------------------------------------------------------------------------------------- value classes (C01)
+# Abstract value classes "s:@name" are concretised into adversarial strings (several candidates per class, chosen by
+# the seed).  The reverse table only NAMES what is observed: the concrete string of class @x is named "s:@x", its
+# end-of-line-normalised form "s:@x~lf"; anything else stays a raw "s:<text>" token (and so differs from any class).
+VALUE_CLASSES = {
+    "plain": ["abc", "node-1", "RENC-w1"],
+    "quote": ["a\"b'c", "'", "say \"hi\"", "\"\""],
+    "markup": ["<a&b>", "]]>", "&amp;", "<!-- x -->", "<data key=\"d0\">x</data>"],
+    "nonascii": ["h\u00e9llo", "\u2713 \u65e5\u672c", "\u00df\U0001F600"],
+    "lead": ["  x", " y", "\tz"],
+    "trail": ["x  ", "y ", "z\t"],
+    "empty": [""],
+    "blank": [" ", "   "],
+    "jsontext": ['{"a": [1, "x"]}', '[]', '{"core": 2, "ram": 6}'],
+    "nl": ["a\nb", "\n", "x\n"],
+    "cr": ["c\rd", "c\r"],
+    "crlf": ["e\r\nf", "\r\ng"],
+    "numeric": ["5", "007", "1e3", "-0"],
+    "boolish": ["true", "False", "None"],
+}
+_CLASS_PRED = {
+    "quote": lambda s: '"' in s or "'" in s, "markup": lambda s: any(c in s for c in "<>&"),
+    "nonascii": lambda s: any(ord(c) > 127 for c in s), "lead": lambda s: s[:1].isspace() and not s[-1:].isspace(),
+    "trail": lambda s: s[-1:].isspace() and not s[:1].isspace(), "empty": lambda s: s == "",
+    "blank": lambda s: s != "" and s.strip() == "", "nl": lambda s: "\n" in s and "\r" not in s,
+    "cr": lambda s: "\r" in s and "\n" not in s, "crlf": lambda s: "\r\n" in s,
+}
+_CONC, _REV = {}, {}
+
+
+def set_value_seed(seed):
+    import random as _r
+    rng = _r.Random(seed)
+    _CONC.clear()
+    _REV.clear()
+    for name, cands in VALUE_CLASSES.items():
+        c = rng.choice(cands)
+        assert _CLASS_PRED.get(name, lambda s: True)(c), (name, c)
+        _CONC["@" + name] = c
+    for name, c in _CONC.items():
+        assert c not in _REV, "value classes must be pairwise distinct"
+        _REV[c] = name
+    for name, c in list(_CONC.items()):
+        lf = c.replace("\r\n", "\n").replace("\r", "\n")
+        if lf != c and lf not in _REV:
+            _REV[lf] = name + "~lf"
+
+
+set_value_seed(0)
+
+
 def tok(v):
     """real property value -> opaque token compared by the spec"""
+    if isinstance(v, str) and v in _REV:
+        return "s:" + _REV[v]
     if isinstance(v, bool):
         return "b:true" if v else "b:false"
     if isinstance(v, str):
@@ -36,6 +89,8 @@ def tok(v):
 
 
 def untok(t):
+    if t.startswith("s:@"):
+        return _CONC[t[2:]]
     if t.startswith("s:"):
         return t[2:]
     if t.startswith("i:"):
@@ -80,6 +135,36 @@ def tamper(doc, kind, nid, g2):
                 g.nodes[n]["GraphID"] = g2
             break
     return "\n".join(nx.generate_graphml(g))
+
+
+def read_back(doc, fmtname):
+    """Read the serialised text WITHOUT FIM (plain networkx, lxml for the label markup) into the document view."""
+    nodes, edges = [], []
+    if fmtname == "graphml":
+        from lxml import etree
+        g = nx.parse_graphml(doc)
+        ns = {"g": "http://graphml.graphdrawing.org/xmlns"}
+        tree = etree.fromstring(doc.encode("utf-8"))
+        nlab = {n.get("id"): n.get("labels") for n in tree.findall("./g:graph/g:node", ns)}
+        elab = {}
+        for e in tree.findall("./g:graph/g:edge", ns):
+            elab[frozenset((e.get("source"), e.get("target")))] = e.get("label")
+    else:
+        g = nx.readwrite.node_link_graph(json.loads(doc))
+        nlab, elab = None, None
+    if len(g.nodes) == 0:
+        return "nograph"
+    for k, d in g.nodes(data=True):
+        nodes.append({"n": str(d.get("NodeID")), "cls": str(d.get("Class")), "gid": str(d.get("GraphID")),
+                      "labels": "-" if nlab is None else str(nlab.get(str(k))),
+                      "props": {p: tok(v) for p, v in d.items() if p not in IDENT}})
+    for u, v, d in g.edges(data=True):
+        edges.append({"ends": sorted({str(g.nodes[u].get("NodeID")), str(g.nodes[v].get("NodeID"))}),
+                      "cls": str(d.get("Class")), "label": "-" if elab is None else str(elab.get(frozenset((str(u), str(v))))),
+                      "props": {p: tok(x) for p, x in d.items() if p != "Class"}})
+    nodes.sort(key=lambda r: r["n"])
+    edges.sort(key=lambda r: r["ends"])
+    return {"nodes": nodes, "edges": edges}
 
 
 class StoreRunner:
@@ -207,6 +292,18 @@ class StoreRunner:
             fmt = GraphFormat.GRAPHML if o.get("fmt", self.fmt) == "graphml" else GraphFormat.JSON_NODELINK
             self.doc = self.G(o["g"]).serialize_graph(format=fmt)
             return {"k": "str", "v": "nograph" if self.doc is None else "text"}
+        if op == "ExportDoc":
+            fmtname = o.get("fmt", self.fmt)
+            fmt = GraphFormat.GRAPHML if fmtname == "graphml" else GraphFormat.JSON_NODELINK
+            doc = self.G(o["g"]).serialize_graph(format=fmt)
+            if doc is None:
+                self.doc = None
+                return {"k": "str", "v": "nograph"}
+            self.doc = doc
+            return {"k": "doc", "v": read_back(doc, fmtname)}
+        if op == "Validate":
+            self.G(o["g"]).validate_graph()
+            return none
         if op == "Tamper":
             self.doc = tamper(self.doc, o["kind"], o["n"], o.get("g2"))
             return none
@@ -273,8 +370,9 @@ class StoreRunner:
         raise ValueError("unknown abstract op " + op)
 
 
-def run_script(script, backend, fmt="graphml"):
+def run_script(script, backend, fmt="graphml", vseed=0):
     """Execute a list of abstract ops on a fresh store; return the trace (init state + one line per op)."""
+    set_value_seed(vseed)
     r = StoreRunner(backend, fmt)
     steps = []
     prev = None
